@@ -429,6 +429,77 @@ def part_incremental(task):
   return {'n': n, 'nontrivial': nontriv, 'violations': list(vios.values())}
 
 
+def part_shared_children(task):
+  """A child declared once under several parent values is one definition per parent value: refining it under one value must
+  not show under the others (every way of declaring it x every branch refined x every branch walked)."""
+  from vizier import pyvizier as vz
+  from vizier._src.pyvizier.shared import parameter_iterators as pi
+  from vizier._src.pyvizier.oss import proto_converters as pc_
+  F = vz.ParameterConfig.factory
+  vios, n, nontriv = {}, 0, 0
+
+  def V(clause, text, how):
+    sig = 'C16|shared-child:%s|%s' % (clause, how)
+    vios.setdefault(sig, {'sig': sig, 'desc': text, 'case': {'part': 'H', 'how': how}})
+
+  def declare(how, values):
+    ss = vz.SearchSpace()
+    if how == 'factory-children':
+      ss.add(F('p', feasible_values=['a', 'b', 'z'], children=[(list(values), F('c', feasible_values=['x', 'y']))]))
+    elif how == 'select':
+      ss.root.add_categorical_param('p', ['a', 'b', 'z'])
+      ss.root.select('p', list(values)).add_categorical_param('c', ['x', 'y'])
+    elif how == 'from-proto':
+      ss = declare('factory-children', values)
+      ss2 = vz.SearchSpace()
+      ss2.add(pc_.ParameterConfigConverter.from_proto(pc_.ParameterConfigConverter.to_proto(ss.get('p'))))
+      ss = ss2
+    return ss
+
+  def walk(ss, pv):
+    b = pi.SequentialParameterBuilder(ss)
+    seen = []
+    for pc in b:
+      seen.append(pc.name)
+      b.choose_value({'p': pv, 'c': 'x', 'g': 0.5}[pc.name])
+    return seen
+
+  for how in ('factory-children', 'select', 'from-proto'):
+    for values in (('a', 'b'), ('a', 'b', 'z'), ('b', 'z')):
+      ss = declare(how, values)
+      got = sorted((c.name, v) for c in ss.get('p').child_parameter_configs for v in c.matching_parent_values)
+      n += 1
+      nontriv += 1
+      if got != sorted(('c', v) for v in values):
+        V('declaration', '%s under parent values %s: the parent lists its children as %s' % (how, values, got), how)
+      for refined in values:
+        n += 1
+        nontriv += 1
+        ss = declare(how, values)
+        ss.root.select('p', [refined]).select('c', ['x']).add_float_param('g', 0.0, 1.0)
+        for pv in ('a', 'b', 'z'):
+          want = ['p'] + (['c'] if pv in values else []) + (['g'] if pv == refined else [])
+          try:
+            seen = walk(ss, pv)
+          except Exception as e:  # pylint: disable=broad-except
+            seen = type(e).__name__
+          if seen != want:
+            V('walk', '%s under %s, grandchild added under p=%r only: the walk with p=%r visits %s, expected %s' % (how, values, refined, pv, seen, want), how)
+        tree = sorted((v, sorted(g.name for g in c.child_parameter_configs)) for c in ss.get('p').child_parameter_configs for v in c.matching_parent_values)
+        want_tree = sorted((v, ['g'] if v == refined else []) for v in values)
+        if tree != want_tree:
+          V('tree', '%s under %s, grandchild added under p=%r only: children per parent value are %s, expected %s' % (how, values, refined, tree, want_tree), how)
+        # and the refined space survives the wire
+        try:
+          back = pc_.ParameterConfigConverter.from_proto(pc_.ParameterConfigConverter.to_proto(ss.get('p')))
+          tree2 = sorted((v, sorted(g.name for g in c.child_parameter_configs)) for c in back.child_parameter_configs for v in c.matching_parent_values)
+          if tree2 != want_tree:
+            V('wire', '%s under %s refined under p=%r: after to_proto/from_proto the children per parent value are %s, expected %s' % (how, values, refined, tree2, want_tree), how)
+        except Exception as e:  # pylint: disable=broad-except
+          V('wire', '%s under %s refined under p=%r: to_proto/from_proto raises %r' % (how, values, refined, e), how)
+  return {'n': n, 'nontrivial': nontriv, 'violations': list(vios.values())}
+
+
 def part_walk(task):
   from vizier._src.pyvizier.shared import parameter_iterators as pi
   vios, n, nontriv = {}, 0, 0
@@ -507,7 +578,7 @@ def run(ctx):
   picks = [(a,) for a in names] + [(a, b) for a, b in itertools.combinations(['double[0,1]', 'int[0,2]', 'disc[1,2.5]', 'cat[a,1]', 'bool'], 2)]
   if not ctx.quick:
     picks += list(itertools.combinations(['double[0,1]', 'int[0,2]', 'disc[1,2.5]', 'cat[a,1]', 'bool'], 3))
-  tasks = [('part_member', {}), ('part_builders', {}), ('part_walk', {}), ('part_incremental', {}), ('part_add_trial', {'backends': ['ram'] if ctx.quick else ['ram', 'sqlmem']})]
+  tasks = [('part_member', {}), ('part_builders', {}), ('part_walk', {}), ('part_incremental', {}), ('part_shared_children', {}), ('part_add_trial', {'backends': ['ram'] if ctx.quick else ['ram', 'sqlmem']})]
   for i in range(0, len(picks), 3):
     tasks.append(('part_space', {'picks': picks[i:i + 3]}))
   tot = nontriv = 0
@@ -529,7 +600,7 @@ def run(ctx):
 
 
 def replay(case, ctx):
-  fn = {'M': part_member, 'S': None, 'B': part_builders, 'W': part_walk, 'A': None, 'I': part_incremental}.get(case.get('part'))
+  fn = {'M': part_member, 'S': None, 'B': part_builders, 'W': part_walk, 'A': None, 'I': part_incremental, 'H': part_shared_children}.get(case.get('part'))
   if fn is None:
     return []
   return fn({})['violations']
